@@ -28,9 +28,18 @@ Three facts, regenerated from the source under test on every run:
    `c07_request_state_is_local` fail: under overlapping requests it would be overwritten by the other request.
 
 5. `rendered`: for every row of (1), whether `_apply_gate_logic` RENDERED the executor's / the assessor's payload
-   (`str()`, an f-string, `repr()`), observed with tracer payload objects.  A payload that is rendered and cannot be
-   (its `__str__` raises) makes the gate raise outside the handler of `run` — the model's `renders` / `renderFails` /
-   `runP` (`c07_renders_table_agrees`).
+   (`str()`, an f-string, `repr()`), observed with tracer payload objects (`c07_renders_table_agrees`; the model's
+   `renders` — it matters only for the pre-fix shape `runP false`).
+
+6. `unrenderable`: for every row of (1), what the real `_apply_gate_logic` decides when the payloads CANNOT be rendered
+   (`__str__`, `__repr__`, `__format__` raise): the gate is called three more times (executor's payload bad, assessor's
+   bad, both bad); `some <decision>` when it never raised and decided the same each time (same flags, action, token
+   attached - also compared with the renderable row), `none` otherwise.  `c07_gate_decides_whatever_the_payloads`
+   proves every entry equal to `some (applyGate …)`: fail closed - a bare `str(payload)` / f-string puts `none` there.
+   `handlerRendersSafely`: the real `run` with an executor (then an assessor) raising an Exception whose `__str__`
+   raises answers the blocked unsuccessful ERROR result and counts exactly one failure.  `printRendersSafely`: the real
+   `run` with the console on and an executor payload that cannot be rendered returns its SUCCESS result
+   (`c07_current_source_renders_safely`).  Any exception during these probes yields `false`.
 
 Fail closed: anything unexpected (import error, unknown action string, counters moving in an unforeseen way,
 a verdict used in another way) yields `ok := false` and empty tables, which makes `c07_gate_table_*` /
@@ -108,9 +117,98 @@ class TPayload:
         return format(self.text, spec)
 
 
+class BadPayload:
+    """a payload that cannot be rendered"""
+
+    def __str__(self):
+        raise ValueError("E2: payload cannot be rendered")
+
+    def __repr__(self):
+        raise ValueError("E2: payload cannot be rendered")
+
+    def __format__(self, spec):
+        raise ValueError("E2: payload cannot be rendered")
+
+
+class BadError(Exception):
+    """an agent exception that cannot be rendered"""
+
+    def __str__(self):
+        raise ValueError("E2: exception cannot be rendered")
+
+
+def _decision(r, prompt):
+    tok = r.approval_token
+    if tok is not None and (tok.request_hash != hashlib.sha256(prompt.encode()).hexdigest()[:16]
+                            or tok.issuer != "E2-assessor"):
+        return None
+    return (r.success, r.action, r.blocked, tok is not None)
+
+
+def unrenderable_row(L, T, g, z, y, prompt, good):
+    """the gate's decision on payloads that cannot be rendered (None: it raised, or decided differently)"""
+    seen = set()
+    for zbad, ybad in ((True, False), (False, True), (True, True)):
+        loop = _mk_loop(L, g)
+        zo = T.ActionProtein(TStr(z), BadPayload() if zbad else "z payload", 0.5)
+        yo = T.ActionProtein(TStr(y), BadPayload() if ybad else "y payload", 0.5)
+        try:
+            with contextlib.redirect_stdout(io.StringIO()):
+                r = loop._apply_gate_logic(zo, yo, prompt)
+            seen.add(_decision(r, prompt))
+        except Exception:  # noqa  (rendering failed inside the gate)
+            return None
+    return good if seen == {good} else None
+
+
+def safe_rendering_probes(L, T):
+    """(handlerRendersSafely, printRendersSafely) evaluated on the real run()"""
+    def raiser():
+        raise BadError()
+
+    class A:
+        def __init__(self, name, f):
+            self.name, self.f, self.n = name, f, 0
+
+        def express(self, signal):
+            self.n += 1
+            return self.f()
+    handler = True
+    try:
+        for who in ("z", "y"):
+            for g in L.GateLogic:
+                loop = _mk_loop(L, g, enable_cache=False, failure_threshold=10 ** 6)
+                loop.executor = A("E2-executor", raiser if who == "z" else (lambda: T.ActionProtein("EXECUTE", "p", 0.5)))
+                loop.assessor = A("E2-assessor", raiser if who == "y" else (lambda: T.ActionProtein("PERMIT", "p", 0.5)))
+                with contextlib.redirect_stdout(io.StringIO()):
+                    r = loop.run(f"E2 unprintable exception {who} {g.value}")
+                st = loop.get_circuit_breaker_stats()
+                if not (r.action == "ERROR" and r.blocked is True and r.success is False and r.approval_token is None
+                        and st.failure_count == 1 and loop.executor.n == 1 and loop.assessor.n == (0 if who == "z" else 1)):
+                    handler = False
+    except Exception:  # noqa
+        handler = False
+    printing = True
+    try:
+        for g in L.GateLogic:
+            loop = _mk_loop(L, g, enable_cache=False)
+            loop.silent = False
+            loop.executor.next = T.ActionProtein("EXECUTE", BadPayload(), 0.5)
+            loop.assessor.next = T.ActionProtein("PERMIT", "p", 0.5)
+            with contextlib.redirect_stdout(io.StringIO()):
+                r = loop.run(f"E2 unrenderable payload printed {g.value}")
+            want = g.value != "majority"
+            if (r.action == "SUCCESS" and r.blocked is False) != want:
+                printing = False
+    except Exception:  # noqa
+        printing = False
+    return handler, printing
+
+
 def gate_rows(L, T):
     rows, tokens_ok = [], True
     gate_rows.rendered = []
+    gate_rows.unrenderable = []
     gates = list(L.GateLogic)
     if sorted(g.value for g in gates) != sorted(GATE_LEAN):
         raise Unrecognised(f"gate logics {[g.value for g in gates]}")
@@ -134,6 +232,7 @@ def gate_rows(L, T):
                     if tok.request_hash != hashlib.sha256(prompt.encode()).hexdigest()[:16] or tok.issuer != "E2-assessor":
                         tokens_ok = False
                 rows.append((g.value, z, y, r.success, r.action, r.blocked, tok is not None))
+                gate_rows.unrenderable.append((g.value, z, y, unrenderable_row(L, T, g, z, y, prompt, _decision(r, prompt))))
     return rows, tokens_ok
 
 
@@ -306,7 +405,8 @@ def carried_state(L, T):
     return sorted(flagged)
 
 
-def render(ok, rows, tokens_ok, lits, shape_ok, rc, carried=None, why="", rendered=()) -> str:
+def render(ok, rows, tokens_ok, lits, shape_ok, rc, carried=None, why="", rendered=(), unrenderable=(),
+           safe=(False, False)) -> str:
     L = ["import Operon.Model.Cffl",
          "/-! GENERATED by harness/vf/extract/e2.py from operon_ai/topology/loops.py — do not edit.",
          "    Regenerated on every run of the C07 / C08 checks; the committed copy is the snapshot of the clean tree. -/",
@@ -345,6 +445,21 @@ def render(ok, rows, tokens_ok, lits, shape_ok, rc, carried=None, why="", render
     L.append(",\n".join(f"  ({GATE_LEAN[g]}, {_s(z)}, {_s(y)}, {_b(a)}, {_b(b)})" for (g, z, y, a, b) in rendered))
     L.append("]")
     L.append("")
+    L.append("/-- for every row of `rows`: what `_apply_gate_logic` decides when the payloads CANNOT be rendered (`__str__`")
+    L.append("    raises; executor's, assessor's, both) - `none`: the gate raised or decided differently -/")
+    L.append("def unrenderable : List (Gate × String × String × Option GateOut) := [")
+    L.append(",\n".join(f"  ({GATE_LEAN[g]}, {_s(z)}, {_s(y)}, "
+                        + ("none" if d is None or d[1] not in ACTION_LEAN else
+                           f"some ⟨{_b(d[0])}, {ACTION_LEAN[d[1]]}, {_b(d[2])}, {_b(d[3])}⟩") + ")"
+                        for (g, z, y, d) in unrenderable))
+    L.append("]")
+    L.append("")
+    L.append("/-- the real `run` answers an agent Exception whose `__str__` raises (executor / assessor, every gate logic)")
+    L.append("    with the blocked ERROR result and counts one failure -/")
+    L.append(f"def handlerRendersSafely : Bool := {_b(safe[0])}")
+    L.append("/-- the real `run` with the console on returns the SUCCESS whose executor payload cannot be rendered -/")
+    L.append(f"def printRendersSafely : Bool := {_b(safe[1])}")
+    L.append("")
     L.append("end Operon.Gen.GateTable")
     return "\n".join(L) + "\n"
 
@@ -366,9 +481,15 @@ def extract():
             carried = None
             carried_err = f"{type(e).__name__}: {e}"[:200]
         L.datetime = saved_dt
-        text = render(True, rows, tokens_ok, lits, shape_ok, rc, carried, rendered=gate_rows.rendered)
+        safe = safe_rendering_probes(L, T)
+        L.datetime = saved_dt
+        text = render(True, rows, tokens_ok, lits, shape_ok, rc, carried, rendered=gate_rows.rendered,
+                      unrenderable=gate_rows.unrenderable, safe=safe)
         note = (f"{len(rows)} gate rows, {len(rc)} run-classification rows, literals {lits}"
                 + (f", OTHER USES of action_type: {sorted(TStr.other)}" if TStr.other else "")
+                + (f", {sum(1 for u in gate_rows.unrenderable if u[3] is None)} gate rows RAISE / DIFFER on unrenderable "
+                   f"payloads" if any(u[3] is None for u in gate_rows.unrenderable) else "")
+                + ("" if all(safe) else f", run() does not render safely (handler, print) = {safe}")
                 + (f", state carried across phases of run(): {carried}" if carried is not None
                    else f", CARRIED-STATE OBSERVATION FAILED: {carried_err}"))
     except Exception as e:  # fail closed
